@@ -94,11 +94,17 @@ class Facts(object):
 
     def __init__(self):
         self.nodes, self.vars, self.texts = {}, {}, {}
+        self.hook = None        # optional hook(fn, node id) -> True / False / None for atoms decided elsewhere (e.g. in a world)
 
     def copy(self):
         f = Facts()
-        f.nodes, f.vars, f.texts = dict(self.nodes), dict(self.vars), dict(self.texts)
+        f.nodes, f.vars, f.texts, f.hook = dict(self.nodes), dict(self.vars), dict(self.texts), self.hook
         return f
+
+    def merge(self, other):
+        self.nodes.update(other.nodes)
+        self.vars.update(other.vars)
+        self.texts.update(other.texts)
 
     def describe(self):
         return ', '.join(['%s=%s' % (k, v) for k, v in sorted(self.texts.items())] + ['var#%s=%s' % kv for kv in sorted(self.vars.items())]
@@ -113,6 +119,10 @@ def tv(fn, nid, facts):
     k = n.get('k')
     if nid in facts.nodes:
         return facts.nodes[nid]
+    if facts.hook is not None:
+        hv = facts.hook(fn, nid)
+        if hv is not None:
+            return hv
     if k in ('wrap', 'icast') or (k == 'cast' and n.get('ck') in ('IntegralToBoolean', 'NoOp', 'LValueToRValue', 'IntegralCast')):
         return tv(fn, n.get('sub'), facts) if 'sub' in n else None
     if k == 'construct' and (n.get('elidable') or n.get('copymove')) and len(n.get('args', [])) == 1:
